@@ -182,6 +182,8 @@ MV gen_mv(Rng& r, const GenProfile& p, unsigned depth) {
   return v;
 }
 
+uint64_t gen_fpmode(Rng& kn) { uint64_t v = 0; if (kn.below(4) == 0) v |= 1; if (kn.below(4) == 0) v |= (1 + kn.below(3)) << 1; return v; }
+
 void gen_encode(Rng& r, const MV& v, std::vector<uint8_t>& out) {
   if (!r.chance(1, 4)) { ref_encode(v, out); return; }
   unsigned pm = (unsigned)(r.chance(1, 3) ? 1000 : r.range(100, 600));   // every head, or some of them
@@ -209,6 +211,7 @@ MV deep_mv(Rng& r, unsigned depth) {
 // ---------------------------------------------------------------- buffers beyond 4 GiB
 #include <sys/mman.h>
 bool g_rec_no_payload = false;
+FILE* g_shared_describe = nullptr;
 uint8_t* huge_region() {
   static uint8_t* r = nullptr; static bool tried = false;
   if (!tried) { tried = true; void* p = mmap(nullptr, HUGE_REGION_BYTES, PROT_READ | PROT_WRITE, MAP_PRIVATE | MAP_ANONYMOUS | MAP_NORESERVE, -1, 0); if (p != MAP_FAILED) r = (uint8_t*)p; }
@@ -292,8 +295,12 @@ static void exec_plan(const J& plan) {
 #if defined(__SSE__)
   // the calling thread's floating-point mode is part of the environment: an application linked with -ffast-math runs with
   // flush-to-zero / denormals-are-zero set, and the library must keep float bits exact there too
-  unsigned csr = _mm_getcsr(); bool fp = plan.at("knobs").getu("fpmode", 0) != 0;
-  if (fp) { _mm_setcsr(csr | 0x8040u); stat_add("runs_with_ftz_daz"); }
+  unsigned csr = _mm_getcsr(); uint64_t fpm = plan.at("knobs").getu("fpmode", 0); bool fp = fpm != 0;
+  if (fp) {
+    unsigned c2 = csr; if (fpm & 1) { c2 |= 0x8040u; stat_add("runs_with_ftz_daz"); }
+    if (fpm & 6) { c2 = (c2 & ~0x6000u) | ((unsigned)((fpm >> 1) & 3) << 13); stat_add("runs_with_directed_rounding"); }   // MXCSR.RC: the library is compiled for SSE arithmetic
+    _mm_setcsr(c2);
+  }
 #endif
   w->exec(plan);
 #if defined(__SSE__)
